@@ -99,6 +99,8 @@ DEFAULT_MOLS = {
     "ch4": ([6, 1, 1, 1, 1], [[0.0, 0.0, 0.0], [0.63, 0.63, 0.63], [-0.63, -0.63, 0.63], [-0.63, 0.63, -0.63], [0.63, -0.63, -0.63]]),
     "co": ([8, 6], [[0.0, 0.0, 0.0], [1.13, 0.1, 0.0]]),
     "oh-": ([8, 1], [[0.0, 0.0, 0.0], [0.96, 0.03, 0.02]]),
+    "h2s": ([16, 1, 1], [[0.0, 0.0, 0.0], [1.34, 0.03, 0.0], [-0.05, 1.34, 0.02]]),
+    "sih4": ([14, 1, 1, 1, 1], [[0.0, 0.0, 0.0], [0.85, 0.85, 0.85], [-0.85, -0.85, 0.85], [-0.85, 0.85, -0.85], [0.85, -0.85, -0.85]]),
     "nh4+": ([7, 1, 1, 1, 1], [[0.0, 0.0, 0.0], [0.59, 0.59, 0.59], [-0.59, -0.59, 0.59], [-0.59, 0.59, -0.59], [0.59, -0.59, -0.59]]),
 }
 
